@@ -145,6 +145,13 @@ Theorem C19_i64_literal_end_to_end :
 Proof. exact i64_literal_run. Qed.
 Print Assumptions C19_i64_literal_end_to_end.
 
+(** eval_number integer literals end to end: Integer of exactly that value, or Err above i64::MAX -- never a Float *)
+Theorem C19_number_integer_literal_end_to_end :
+  forall (L : libm) (p : number) ds, ds <> [] -> forallb is_digit ds = true ->
+    run_num L ds p = match parse_i64 ds with Some z => Ok (Int z) | None => Err end.
+Proof. exact number_integer_literal_run. Qed.
+Print Assumptions C19_number_integer_literal_end_to_end.
+
 Theorem C19_number_literal :
   forall t im, conv_num (LNum t im) = if has_point t then option_map Flt (parse_f64 t) else option_map Int (parse_i64 t).
 Proof. reflexivity. Qed.
